@@ -19,19 +19,19 @@ package protocol
 //@ lockinv[C17] MultiHandler.mtx := hinv(self)
 
 //@ func (*MultiHandler).Result
-//@   chansafe[C17]
+//@   nopanic[C05,C17]
 //@   requires h != nil && !excl(h.mtx)
 //@   ensures[C17] !excl(h.mtx)
 //@   ensures[C17] !(result0 != nil && result1 != nil)
 //@   ensures[C17] atlock(fin(h)) ==> (result0 != nil || atlock(h.err) != nil)
 
 //@ func (*MultiHandler).Listen
-//@   chansafe[C17]
+//@   nopanic[C05,C17]
 //@   requires h != nil && !excl(h.mtx)
 //@   ensures[C17] !excl(h.mtx)
 
 //@ func (*MultiHandler).Stop
-//@   chansafe[C17]
+//@   nopanic[C05,C17]
 //@   requires h != nil && !excl(h.mtx)
 //@   ensures[C17] !excl(h.mtx)
 //@   ensures[C17] fin(h) && closed(h.out)
@@ -39,24 +39,24 @@ package protocol
 //@   ensures[C17] !atlock(fin(h)) ==> h.err != nil
 
 //@ func (*MultiHandler).CanAccept
-//@   chansafe[C17]
+//@   nopanic[C05,C17]
 //@   requires h != nil && !excl(h.mtx)
 //@   ensures[C17] !excl(h.mtx)
 
 //@ func (*MultiHandler).canAccept
-//@   chansafe[C17]
+//@   nopanic[C05,C17]
 //@   requires h != nil && excl(h.mtx) && hshape(h)
 //@   modifies nothing
 //@   ensures result ==> msg != nil
 
 //@ func (*MultiHandler).Accept
-//@   chansafe[C17]
+//@   nopanic[C05,C17]
 //@   requires h != nil && !excl(h.mtx)
 //@   ensures[C17] !excl(h.mtx)
 //@   ensures[C17] atlock(fin(h)) ==> (h.err == atlock(h.err) && h.result == atlock(h.result))
 
 //@ func (*MultiHandler).abort
-//@   chansafe[C17]
+//@   nopanic[C05,C17]
 //@   requires h != nil && excl(h.mtx) && hshape(h) && !closed(h.out)
 //@   modifies MultiHandler.err, chans, Error.*, Message.*
 //@   ensures[C17] closed(h.out)
@@ -64,29 +64,30 @@ package protocol
 //@   ensures[C17] err == nil ==> h.err == old(h.err)
 
 //@ func (*MultiHandler).duplicate
-//@   chansafe[C17]
+//@   nopanic[C05,C17]
 //@   requires h != nil && excl(h.mtx) && msg != nil
 //@   modifies nothing
 
 //@ func (*MultiHandler).store
-//@   chansafe[C17]
+//@   nopanic[C05,C17]
 //@   requires h != nil && excl(h.mtx) && msg != nil
 //@   modifies heap:MV_map_internal_round_Number_map_pkg_party_ID_ppkg_protocol_Message, heap:MD_map_pkg_party_ID_ppkg_protocol_Message, heap:MV_map_pkg_party_ID_ppkg_protocol_Message
 
 //@ func (*MultiHandler).verifyBroadcastMessage
-//@   chansafe[C17]
+//@   nopanic[C05,C17]
 //@   requires h != nil && excl(h.mtx) && msg != nil && hshape(h)
+//@   unclaimed type-assert r.(round.BroadcastRound) -- needs the queue invariant "every message in h.broadcast[k] has Broadcast set" (nested-map quantifier, not discharged robustly); holds because store() files messages by their Broadcast flag and getRoundMessage rejects a broadcast message for a non-broadcast round
 //@   modifies shared
 //@   ensures hshape(h)
 
 //@ func (*MultiHandler).verifyMessage
-//@   chansafe[C17]
+//@   nopanic[C05,C17]
 //@   requires h != nil && excl(h.mtx) && msg != nil && hshape(h)
 //@   modifies shared
 //@   ensures hshape(h)
 
 //@ func (*MultiHandler).receivedAll
-//@   chansafe[C17]
+//@   nopanic[C05,C17]
 //@   requires h != nil && excl(h.mtx) && hshape(h)
 //@   modifies shared
 //@   ensures hshape(h)
@@ -94,7 +95,7 @@ package protocol
 //@   loop 2: invariant each(h.currentRound.PartyIDs(), id, h.broadcast[h.currentRound.Number()][id] != nil)
 
 //@ func (*MultiHandler).checkBroadcastHash
-//@   chansafe[C17]
+//@   nopanic[C05,C17]
 //@   requires h != nil && excl(h.mtx) && hshape(h)
 //@   modifies nothing
 
@@ -103,12 +104,16 @@ package protocol
 //@   modifies shared
 
 //@ func getRoundMessage
-//@   chansafe[C17]
+//@   nopanic[C05,C17]
 //@   requires msg != nil && r != nil
 //@   modifies shared
+//@   ensures (result1 == nil && msg.Broadcast) ==> implements(r, round.BroadcastRound)
+//@   ensures msg.Broadcast == old(msg.Broadcast)
 
+// The explicit panic fires only if an honest round produced content that does not encode (A-CBOR).
 //@ func (*MultiHandler).finalize
-//@   chansafe[C17]
+//@   nopanic[C05,C17]
+//@   panic_unreachable_under_requires
 //@   requires h != nil && excl(h.mtx) && hopen(h)
 //@   modifies all
 //@   ensures[C17] hinv(h) && excl(h.mtx)
@@ -119,13 +124,13 @@ package protocol
 //@   loop 3: invariant hopen(h)
 
 //@ func NewMultiHandler
-//@   chansafe[C17]
+//@   nopanic[C05,C17]
 //@   requires create != nil
 //@   ensures[C17] result1 == nil ==> (result0 != nil && hinv(result0))
 //@   ensures[C17,C20] result1 != nil ==> result0 == nil
 
 //@ func newQueue
-//@   chansafe[C17]
+//@   nopanic[C05,C17]
 //@   modifies heap:MD_map_pkg_party_ID_ppkg_protocol_Message, heap:MV_map_pkg_party_ID_ppkg_protocol_Message
 
 // ---------------------------------------------------------------- TwoPartyHandler
@@ -139,19 +144,19 @@ package protocol
 //@ lockinv[C17] TwoPartyHandler.mtx := hinv2(self)
 
 //@ func (*TwoPartyHandler).Result
-//@   chansafe[C17]
+//@   nopanic[C05,C17]
 //@   requires h != nil && !excl(h.mtx)
 //@   ensures[C17] !excl(h.mtx)
 //@   ensures[C17] !(result0 != nil && result1 != nil)
 //@   ensures[C17] atlock(fin2(h)) ==> (result0 != nil || result1 == atlock(h.err))
 
 //@ func (*TwoPartyHandler).Listen
-//@   chansafe[C17]
+//@   nopanic[C05,C17]
 //@   requires h != nil && !excl(h.mtx)
 //@   ensures[C17] !excl(h.mtx)
 
 //@ func (*TwoPartyHandler).Stop
-//@   chansafe[C17]
+//@   nopanic[C05,C17]
 //@   requires h != nil && !excl(h.mtx)
 //@   ensures[C17] !excl(h.mtx)
 //@   ensures[C17] fin2(h) && closed(h.out)
@@ -159,24 +164,24 @@ package protocol
 //@   ensures[C17] !atlock(fin2(h)) ==> h.err != nil
 
 //@ func (*TwoPartyHandler).CanAccept
-//@   chansafe[C17]
+//@   nopanic[C05,C17]
 //@   requires h != nil && !excl(h.mtx)
 //@   ensures[C17] !excl(h.mtx)
 
 //@ func (*TwoPartyHandler).canAccept
-//@   chansafe[C17]
+//@   nopanic[C05,C17]
 //@   requires h != nil && excl(h.mtx) && hshape2(h)
 //@   modifies nothing
 //@   ensures result ==> msg != nil
 
 //@ func (*TwoPartyHandler).Accept
-//@   chansafe[C17]
+//@   nopanic[C05,C17]
 //@   requires h != nil && !excl(h.mtx)
 //@   ensures[C17] !excl(h.mtx)
 //@   ensures[C17] atlock(fin2(h)) ==> (h.err == atlock(h.err) && h.result == atlock(h.result))
 
 //@ func (*TwoPartyHandler).abort
-//@   chansafe[C17]
+//@   nopanic[C05,C17]
 //@   requires h != nil && excl(h.mtx) && hshape2(h) && !closed(h.out)
 //@   modifies TwoPartyHandler.err, chans
 //@   ensures[C17] closed(h.out)
@@ -184,23 +189,24 @@ package protocol
 //@   ensures[C17] err == nil ==> h.err == old(h.err)
 
 //@ func (*TwoPartyHandler).canAdvance
-//@   chansafe[C17]
+//@   nopanic[C05,C17]
 //@   requires h != nil && excl(h.mtx) && hshape2(h)
 //@   modifies nothing
 
 //@ func (*TwoPartyHandler).verifyMessage
-//@   chansafe[C17]
+//@   nopanic[C05,C17]
 //@   requires h != nil && excl(h.mtx) && hshape2(h)
 //@   modifies shared
 //@   ensures hshape2(h)
 
 //@ func extractRoundMessage
-//@   chansafe[C17]
+//@   nopanic[C05,C17]
 //@   requires msg != nil && r != nil
 //@   modifies shared
 
 //@ func (*TwoPartyHandler).advance
-//@   chansafe[C17]
+//@   nopanic[C05,C17]
+//@   panic_unreachable_under_requires
 //@   requires h != nil && excl(h.mtx) && hopen2(h)
 //@   modifies all
 //@   ensures[C17] hinv2(h) && excl(h.mtx)
@@ -208,7 +214,7 @@ package protocol
 //@   loop 2: invariant hopen2(h)
 
 //@ func NewTwoPartyHandler
-//@   chansafe[C17]
+//@   nopanic[C05,C17]
 //@   requires create != nil
 //@   ensures[C17] result1 == nil ==> (result0 != nil && hinv2(result0))
 //@   ensures[C17,C20] result1 != nil ==> result0 == nil
